@@ -115,7 +115,7 @@ Print bad.
 PROOFS = qc.PROOFS + ["lib/Linearizability.v", "proofs/LinearizabilityProofs.v", "models/QueueHistory.v", "proofs/QueueLinProofs.v"]
 REQUIRED_THEOREMS = ["c01_queue_invariant", "c01_no_nil_dereference", "c01_refines_fifo", "c01_thread_protocol",
                      "c01_no_loss_dup_invent", "c01_linearizable", "c01_herlihy_wing_linearizable",
-                     "c01_hw_linearization_witness", "c01_fifo_legal_consequences"]
+                     "c01_hw_linearization_witness", "c01_fifo_legal_consequences", "c01_hw_definition_rejects"]
 
 TRUSTED = [
     "cooperative scheduler harness/internal/coop + verif-tag yield hooks in loom/queue.go (queueLoad/queueCas): one step = one shared access",
